@@ -669,11 +669,13 @@ func c08Twin(scenario string, victim int) *c08Run {
 	return twin
 }
 
-// firstPoints lists the crash points of the twin's victim. With reduce, the
-// database points inside one transaction are represented by three of them:
-// every statement of a transaction that does not commit leaves the same state
-// after the restart (the transaction is rolled back), so "before BEGIN",
-// "before COMMIT" and "after COMMIT" cover the transaction.
+// firstPoints lists the crash points of the twin's victim. With reduce, points
+// that leave the same state after the restart are represented once:
+//   - every statement of a transaction that does not commit (the transaction is
+//     rolled back): "before BEGIN", "before COMMIT" and "after COMMIT" cover the
+//     transaction;
+//   - a read-only request (autocommit query, Block, BlockResults, BlockchainInfo)
+//     leaves the same state whether or not it was executed: "before" only.
 func firstPoints(twin *c08Run, reduce bool) []shmx.CrashPoint {
 	var out []shmx.CrashPoint
 	inTx := false
@@ -690,12 +692,18 @@ func firstPoints(twin *c08Run, reduce bool) []shmx.CrashPoint {
 			out = append(out, shmx.CrashPoint{Seq: seq}, shmx.CrashPoint{Seq: seq, After: true})
 		case kind == "rollback":
 			inTx = false
-		case !inTx:
+		case inTx:
+		case kind == "query":
+			out = append(out, shmx.CrashPoint{Seq: seq})
+		default:
 			out = append(out, shmx.CrashPoint{Seq: seq}, shmx.CrashPoint{Seq: seq, After: true})
 		}
 	}
-	for seq := range twin.RPCLog {
-		out = append(out, shmx.CrashPoint{RPC: true, Seq: seq}, shmx.CrashPoint{RPC: true, Seq: seq, After: true})
+	for seq, m := range twin.RPCLog {
+		out = append(out, shmx.CrashPoint{RPC: true, Seq: seq})
+		if !reduce || m == "BroadcastTxCommit" {
+			out = append(out, shmx.CrashPoint{RPC: true, Seq: seq, After: true})
+		}
 	}
 	return out
 }
@@ -717,7 +725,7 @@ func c08() *report.Check {
 	return &report.Check{
 		Level: "fault_enumeration",
 		Rule: "complete key generations (n=3, t=2) through fakeshm with real keypers on minipg; S1 all honest, S2 a scripted third keyper deals a wrong evaluation to the victim and accuses it falsely (the victim accuses and apologises), S3 all honest with the third keyper one block slower in the dealing phase. A crash-free twin numbers the victim's database round trips (N) and shuttermint RPC calls (M). " +
-			"quick: victim 0, all scenarios, every single crash point: every round trip and every RPC call x {before it is sent, applied but reply lost}; additionally every single transient error (a database round trip refused, an RPC call failing before / after the chain executed it) after which the keyper re-enters its loop with the same in-memory objects. thorough: both victims, all scenarios, all single points, and every pair (first point: every autocommit statement and RPC call in both modes, per transaction before BEGIN / before COMMIT / after COMMIT; second point: each of the next 60 round trips and 6 RPC calls after the restart, both modes). " +
+			"quick: victim 0, all scenarios, every single crash point (single transient errors: S2 only): every round trip and every RPC call x {before it is sent, applied but reply lost}; additionally every single transient error (a database round trip refused, an RPC call failing before / after the chain executed it) after which the keyper re-enters its loop with the same in-memory objects. thorough: both victims, all scenarios, all single points, and for S1/S2 every pair (first point: every state-changing autocommit statement and BroadcastTxCommit in both modes, read-only requests before only, per transaction before BEGIN / before COMMIT / after COMMIT; second point: each of the next 60 round trips and 6 RPC calls after the restart, both modes). " +
 			"A crash drops the open transaction and every in-memory object; the keyper is rebuilt like KeyperCore.Start and runs on to a fixed horizon. Oracle at every commit point of the victim's database: current_block advances by one, block-driven tables change only together with current_block, queued/sent commitments and evaluations equal the stored polynomial; at the horizon: every block once, one commitment per eon, sent evaluations verify, outbox empty and delivered in id order, same outcome / accepted message kinds / per-block database structure as the twin, C07's agreement oracle.",
 		Assumptions: []string{
 			"a restart completes within one block interval: the restarted keyper runs its loop again while the same block is open (so that a crash changes state, not timing)",
@@ -726,15 +734,17 @@ func c08() *report.Check {
 			"PostgreSQL semantics as implemented by minipg; a dropped connection rolls back its open transaction",
 		},
 		Shards: func(bool) int { return 16 },
-		Budget: minutes(1.5, 23),
+		Budget: minutes(1.8, 23),
 		Run: func(c *report.Ctx) {
 			type job struct {
 				scenario string
 				victim   int
+				errors   bool // also every single transient error
+				pairs    bool // also crash pairs (thorough)
 			}
-			jobs := []job{{"S1", 0}, {"S2", 0}, {"S3", 0}}
+			jobs := []job{{"S1", 0, false, true}, {"S2", 0, true, true}, {"S3", 0, false, false}}
 			if c.Thorough {
-				jobs = append(jobs, job{"S1", 1}, job{"S2", 1}, job{"S3", 1})
+				jobs = []job{{"S1", 0, true, true}, {"S2", 0, true, true}, {"S3", 0, true, false}, {"S1", 1, true, true}, {"S2", 1, true, true}, {"S3", 1, true, false}}
 			}
 			unit := 0
 			runCase := func(cs c08Case, twin *c08Run) {
@@ -792,6 +802,9 @@ func c08() *report.Check {
 				}
 				// single transient errors (no crash, the keyper keeps its objects)
 				for _, p := range errorPoints(twin) {
+					if !j.errors {
+						break
+					}
 					unit++
 					if unit%c.NShards != c.Shard {
 						continue
@@ -810,6 +823,9 @@ func c08() *report.Check {
 			// pairs, nearest second point first so that a cap cuts the far ones
 			for d := 0; d < c08PairWindow; d++ {
 				for _, j := range jobs {
+					if !j.pairs {
+						continue
+					}
 					twin := twins[j]
 					for _, p := range firstPoints(twin, true) {
 						for _, after := range []bool{false, true} {
